@@ -116,7 +116,7 @@ class ThrRun(sbx.SbxRun):
         o['virtual_elapsed'] = world.CLOCK.now - now0
         ta = self.sched.probe.get('timer_at')
         if ta is not None:
-            o['g_events_after_timer'] = g.events - ta[0]
+            o['g_events_after_timer'] = g.line_events - ta[0]
             o['virtual_after_timer'] = world.CLOCK.now - ta[1]
         o['async_sent'] = self.sched.async_sent - sent0
         o['landings'] = [list(x) for x in self.sched.async_landings[land0:]]
